@@ -409,3 +409,58 @@ def move_origins(body, local):
             else:
                 origins.append((dbb, idx, 'rv', x))
     return aliases, origins
+
+
+def consumers(mir, body, local, depth=3):
+    """names of the functions that (transitively through moves, references, payload projections, `?`, and closures handed to
+    Option/Result adaptors) receive the value of `local`: a forward use summary inside one body, one closure level deep"""
+    out = set()
+    seen = set()
+    todo = [local]
+    while todo:
+        l = todo.pop()
+        if l in seen:
+            continue
+        seen.add(l)
+        for i, j, s in body.stmts():
+            if s['k'] != 'assign':
+                continue
+            rv = s['rv']
+            srcs = []
+            for key in ('op', 'a', 'b'):
+                if key in rv and isinstance(rv[key], dict):
+                    p = op_place(rv[key])
+                    if p is not None:
+                        srcs.append(p['l'])
+            if 'place' in rv:
+                srcs.append(rv['place']['l'])
+            for o in rv.get('ops', []):
+                p = op_place(o)
+                if p is not None:
+                    srcs.append(p['l'])
+            if l in srcs:
+                if rv['k'] == 'discr':
+                    out.add('<discriminant test>')
+                    continue
+                todo.append(s['place']['l'])
+        for bb, t in body.calls():
+            ls = [op_place(a)['l'] for a in t['args'] if op_place(a) is not None]
+            if l not in ls:
+                continue
+            nm = strip_generics(callee_name(t) or '')
+            out.add(nm)
+            # pass-through adaptors: follow the result; closures handed along: look inside
+            if nm.endswith(('::branch', '::from_residual', '::as_ref', '::deref', '::clone', '::unwrap', '::expect', '::ok_or', '::ok_or_else', '::as_mut')) and not t['dest']['p']:
+                todo.append(t['dest']['l'])
+            if depth > 0:
+                for a in t['args']:
+                    p = op_place(a)
+                    if p is None or p['p']:
+                        continue
+                    k2, v2 = chase(body, p['l'])
+                    if k2 == 'rv' and v2[2]['rv']['k'] == 'agg' and v2[2]['rv'].get('ak') == 'closure':
+                        cb = mir.by_id.get(v2[2]['rv'].get('def'))
+                        if cb is not None:
+                            for q in range(2, cb.d['argc'] + 1):
+                                out |= consumers(mir, cb, q, depth - 1)
+    return out
